@@ -11,10 +11,16 @@
 //! tokio::io::duplex and driven by a raw h2 client.  NamedService::NAME reaches the router through
 //! this harness' own `Wrap`, or through tonic's own propagation: InterceptedService::new(svc, f),
 //! the generated XxxServer::with_interceptor(inner, f), and Layered (LayerExt::named_layer).
+//! Added after AUDIT2: six generated servers AND clients whose Rust type name is not the proto
+//! identifier (build.rs id_fixture: tonic_build::CodeGenBuilder over our own Service / Method
+//! impls, emit_package on / off), every real generated server described to the model by its
+//! tonic-build descriptor (package, name(), identifier()), request methods other than POST,
+//! Routes built on a caller-supplied axum::Router (kind from_axum), Router::serve /
+//! serve_with_shutdown over 127.0.0.1, names outside the modelled name space (kind *.outside).
 //! Every request is judged by a direct oracle (handler hit iff path == "/S/M" literally, else a
 //! well-formed UNIMPLEMENTED response and no handler) and compared with `Model/Router.v` inside Coq.
 use bytes::Bytes;
-use h_router::{Rec, COMMITTED, FIXTURE};
+use h_router::{Rec, COMMITTED, COMMITTED_DESC, FIXTURE, FIXTURE_DESC, ID_FIXTURE};
 use http::HeaderMap;
 use serde_json::{json, Value};
 use std::convert::Infallible;
@@ -34,13 +40,28 @@ const IMPORTS: &str = "From Verif Require Import Lib.Bytes Lib.Obs Model.Router.
 // ------------------------------------------------------------------ stub services
 /// `NamedService::NAME` is a const, so stubs are indexed by a const generic into this pool.
 /// 0..N_MODEL are inside the modelled name space (no '/', '{', '}'), the rest make axum panic.
-const STUB_NAMES: [&str; 30] = [
+const STUB_NAMES: [&str; 56] = [
     "pkg.Svc", "pkg.SvcX", "Svc", "pkg.Svc.Inner", "pkg.Sv", "pkg", "pkg.svc", "PKG.SVC", "svc", "S",
     "Sv", "a", "a.b", "a.b.C", "a_b.C1", "grpc.health.v1.Health", "grpc.health.v1.Healt",
     "grpc.health.v1.HealthX", "x%2Fy", "a*b", "a:b", "", "\u{e9}", "a-b", "pkg.Svc.", ".Svc", "x", "x%2fy",
+    // 28, 29: axum's v0.7 check rejects them (panic)
     "*a", ":a",
+    // 30..: more of the modelled name space
+    "pkg.Svc2", "pkg.Svc_", "pkg_Svc", "pkg..Svc", "Pkg.Svc", "pkg.SVC", "a.b.c.d.e.F",
+    "very.long.package.name.with.many.segments.v1beta1.AnExtraordinarilyLongServiceNameThatGoesOnAndOnAndOnService",
+    "0", "~", "a+b", "a=b", "a;b", "a,b", "a@b", "a!b",
+    // 46, 47: the NAMEs of two identifier-fixture servers (duplicates of generated servers)
+    "pkg.HTTPEcho", "greeter",
+    // 48..: OUTSIDE the modelled name space ('/', '{', '}': matchit syntax / extra segments)
+    "a/b", "{", "}", "{x}", "{y}", "a/:b", "{*rest}", "a{b}c",
 ];
-const N_MODEL: usize = 28;
+/// indices 0..N_MODEL are inside the modelled name space
+const N_MODEL: usize = 48;
+/// .. of which these make axum's registration panic
+const REJECTED: [usize; 2] = [28, 29];
+fn name_in_model(n: &str) -> bool {
+    !n.contains(['/', '{', '}'])
+}
 
 type HitLog = Arc<Mutex<Vec<(String, String)>>>;
 type ReachLog = Arc<Mutex<Vec<String>>>;
@@ -149,8 +170,10 @@ where
 #[derive(Clone, Debug, PartialEq)]
 enum Kind {
     Stub { idx: usize, methods: Vec<String> },
-    /// 0..4 = FIXTURE (generated at build time), 4.. = COMMITTED (health, reflection)
+    /// 0..4 = FIXTURE (tonic_build::manual, generated at build time), 4.. = COMMITTED (health, reflection)
     Real(usize),
+    /// ID_FIXTURE[k]: generated through CodeGenBuilder from a descriptor with name() != identifier()
+    Gen(usize),
 }
 #[derive(Clone, Copy, Debug, PartialEq)]
 enum How {
@@ -163,6 +186,7 @@ enum How {
     /// Stack(RecLayer, GrpcWebLayer).named_layer(svc): NAME by tonic's Layered around GrpcWebService
     GrpcWebLayered,
 }
+const HOWS: [How; 6] = [How::Plain, How::Intercepted, How::WithInterceptor, How::Layered, How::GrpcWeb, How::GrpcWebLayered];
 impl How {
     fn s(self) -> &'static str {
         match self {
@@ -175,7 +199,7 @@ impl How {
         }
     }
     fn parse(s: &str) -> How {
-        [How::Plain, How::Intercepted, How::WithInterceptor, How::Layered, How::GrpcWeb, How::GrpcWebLayered].into_iter().find(|h| h.s() == s).unwrap_or(How::Plain)
+        HOWS.into_iter().find(|h| h.s() == s).unwrap_or(How::Plain)
     }
 }
 #[derive(Clone, Debug, PartialEq)]
@@ -186,6 +210,15 @@ struct Reg {
     /// Some(false) = add_optional_service(None): nothing is registered
     opt: Option<bool>,
 }
+/// what tonic-build was told about a generated server: (Service::name(), package, identifier(),
+/// emit_package, [(Method::name(), Method::identifier())])
+struct Desc {
+    rust_name: &'static str,
+    package: &'static str,
+    ident: &'static str,
+    emit_package: bool,
+    methods: Vec<(&'static str, &'static str)>,
+}
 impl Reg {
     fn stub(idx: usize, methods: &[&str]) -> Reg {
         Reg { kind: Kind::Stub { idx, methods: methods.iter().map(|m| m.to_string()).collect() }, how: How::Plain, opt: None }
@@ -193,35 +226,83 @@ impl Reg {
     fn real(k: usize) -> Reg {
         Reg { kind: Kind::Real(k), how: How::Plain, opt: None }
     }
+    fn gen(k: usize) -> Reg {
+        Reg { kind: Kind::Gen(k), how: How::Plain, opt: None }
+    }
     fn present(&self) -> bool {
         self.opt != Some(false)
     }
     fn is_real(&self) -> bool {
-        matches!(self.kind, Kind::Real(_))
+        !matches!(self.kind, Kind::Stub { .. })
     }
+    /// the name the service MUST be routed under (hand-written tables, proto spelling)
     fn name(&self) -> &'static str {
         match &self.kind {
             Kind::Stub { idx, .. } => STUB_NAMES[*idx],
             Kind::Real(k) if *k < 4 => FIXTURE[*k].0,
             Kind::Real(k) => COMMITTED[*k - 4].0,
+            Kind::Gen(k) => ID_FIXTURE[*k].route,
         }
     }
+    /// the proto method names
     fn methods(&self) -> Vec<String> {
         match &self.kind {
             Kind::Stub { methods, .. } => methods.clone(),
             Kind::Real(k) if *k < 4 => FIXTURE[*k].1.iter().map(|m| m.0.to_string()).collect(),
             Kind::Real(k) => COMMITTED[*k - 4].1.iter().map(|m| m.0.to_string()).collect(),
+            Kind::Gen(k) => ID_FIXTURE[*k].methods.iter().map(|m| m.1.to_string()).collect(),
+        }
+    }
+    fn desc(&self) -> Option<Desc> {
+        match &self.kind {
+            Kind::Stub { .. } => None,
+            Kind::Real(k) => {
+                let (d, f) = if *k < 4 { (&FIXTURE_DESC[*k], &FIXTURE[*k]) } else { (&COMMITTED_DESC[*k - 4], &COMMITTED[*k - 4]) };
+                Some(Desc { rust_name: d.1, package: d.0, ident: d.1, emit_package: true, methods: d.2.iter().cloned().zip(f.1.iter().map(|m| m.0)).collect() })
+            }
+            Kind::Gen(k) => {
+                let f = &ID_FIXTURE[*k];
+                Some(Desc { rust_name: f.rust_name, package: f.package, ident: f.ident, emit_package: f.emit_package, methods: f.methods.iter().map(|m| (m.0, m.1)).collect() })
+            }
+        }
+    }
+    /// Rust-side spellings (for the near-miss generator): "<package>.<Service::name()>" and the fn names
+    fn rust_spellings(&self) -> (String, Vec<String>) {
+        match self.desc() {
+            None => (upper_camel(self.name()), self.methods().iter().map(|m| snake(m)).collect()),
+            Some(d) => {
+                let n = if d.package.is_empty() { d.rust_name.to_string() } else { format!("{}.{}", d.package, d.rust_name) };
+                (n, d.methods.iter().map(|m| m.0.trim_start_matches("r#").to_string()).collect())
+            }
         }
     }
     fn coq(&self) -> String {
-        format!("(mkSvc {} {})", coq_bytes(self.name().as_bytes()), coq_list(&self.methods(), |m| coq_bytes(m.as_bytes())))
+        let b = |s: &str| coq_bytes(s.as_bytes());
+        match self.desc() {
+            None => format!("(RStub (mkSvc {} {}))", b(self.name()), coq_list(&self.methods(), |m| b(m))),
+            Some(d) => format!(
+                "(RGen (mkTS {} {} {} {}) {})",
+                b(d.rust_name),
+                b(d.package),
+                b(d.ident),
+                coq_list(&d.methods, |m| format!("(mkTM {} {})", b(m.0), b(m.1))),
+                coq_bool(d.emit_package)
+            ),
+        }
     }
     fn json(&self) -> Value {
-        json!({"name": self.name(), "methods": self.methods(), "real": self.is_real(), "how": self.how.s(), "optional": self.opt})
+        let id = match self.kind {
+            Kind::Gen(k) => Some(k),
+            _ => None,
+        };
+        let d = self.desc().map(|d| json!({"rust_name": d.rust_name, "package": d.package, "identifier": d.ident, "emit_package": d.emit_package}));
+        json!({"name": self.name(), "methods": self.methods(), "real": self.is_real(), "id_fixture": id, "descriptor": d, "how": self.how.s(), "optional": self.opt})
     }
     fn from_json(v: &Value) -> Reg {
         let name = v["name"].as_str().unwrap();
-        let kind = if v["real"].as_bool().unwrap_or(false) {
+        let kind = if let Some(k) = v["id_fixture"].as_u64() {
+            Kind::Gen(k as usize)
+        } else if v["real"].as_bool().unwrap_or(false) {
             Kind::Real(FIXTURE.iter().map(|f| f.0).chain(COMMITTED.iter().map(|f| f.0)).position(|n| n == name).unwrap())
         } else {
             Kind::Stub {
@@ -232,9 +313,51 @@ impl Reg {
         Reg { kind, how: How::parse(v["how"].as_str().unwrap_or("")), opt: v["optional"].as_bool() }
     }
 }
+/// prost-build's rendering of a proto name as a Rust type name (heck UpperCamelCase, last dotted
+/// segment): HTTPEcho -> HttpEcho, Echo_V2 -> EchoV2, greeter -> Greeter
+fn upper_camel(full: &str) -> String {
+    let (pkg, last) = match full.rfind('.') {
+        Some(i) => (&full[..=i], &full[i + 1..]),
+        None => ("", full),
+    };
+    let mut out = String::new();
+    let cs: Vec<char> = last.chars().collect();
+    let mut start = true;
+    for (i, c) in cs.iter().enumerate() {
+        if *c == '_' || *c == '-' {
+            start = true;
+            continue;
+        }
+        let prev_upper = i > 0 && cs[i - 1].is_uppercase();
+        let next_lower = cs.get(i + 1).map(|n| n.is_lowercase()).unwrap_or(false);
+        if start {
+            out.extend(c.to_uppercase());
+        } else if c.is_uppercase() && prev_upper && !next_lower {
+            out.extend(c.to_lowercase());
+        } else {
+            out.push(*c);
+        }
+        start = false;
+    }
+    format!("{}{}", pkg, out)
+}
+fn snake(m: &str) -> String {
+    let mut s = String::new();
+    let cs: Vec<char> = m.chars().collect();
+    for (i, c) in cs.iter().enumerate() {
+        if c.is_uppercase() && i > 0 && !cs[i - 1].is_uppercase() && cs[i - 1] != '_' {
+            s.push('_');
+        }
+        s.extend(c.to_lowercase());
+    }
+    s
+}
 /// the registrations the model sees: add_optional_service(None) registers nothing
 fn present(regs: &[Reg]) -> Vec<Reg> {
     regs.iter().filter(|g| g.present()).cloned().collect()
+}
+fn all_in_model(regs: &[Reg]) -> bool {
+    regs.iter().all(|g| name_in_model(g.name()))
 }
 
 #[derive(Clone, Default)]
@@ -256,6 +379,45 @@ impl World {
     }
 }
 
+/// Server::builder().layer(PassLayer): a tower layer around the whole Routes that lets every
+/// request through (and counts them) - routing must not notice it
+#[derive(Clone, Default)]
+struct PassLayer {
+    seen: Arc<Mutex<u64>>,
+}
+#[derive(Clone)]
+struct PassSvc<S> {
+    inner: S,
+    seen: Arc<Mutex<u64>>,
+}
+impl<S> tower_layer::Layer<S> for PassLayer {
+    type Service = PassSvc<S>;
+    fn layer(&self, inner: S) -> PassSvc<S> {
+        PassSvc { inner, seen: self.seen.clone() }
+    }
+}
+impl<S, R> Service<R> for PassSvc<S>
+where
+    S: Service<R>,
+{
+    type Response = S::Response;
+    type Error = S::Error;
+    type Future = S::Future;
+    fn poll_ready(&mut self, cx: &mut std::task::Context<'_>) -> std::task::Poll<Result<(), S::Error>> {
+        self.inner.poll_ready(cx)
+    }
+    fn call(&mut self, req: R) -> Self::Future {
+        *self.seen.lock().unwrap() += 1;
+        self.inner.call(req)
+    }
+}
+type LStack = tower_layer::Stack<PassLayer, tower_layer::Identity>;
+type LRouter = tonic::transport::server::Router<LStack>;
+enum AnyRouter {
+    Plain(TRouter),
+    Layered(LRouter, Arc<Mutex<u64>>),
+}
+
 /// the thing `add_service` is called on
 enum Target {
     /// Routes::new(first) then Routes::add_service
@@ -266,6 +428,9 @@ enum Target {
     /// tonic::transport::Server::builder(): the first add turns it into a transport Router
     Server(Server),
     Router(TRouter),
+    /// the same behind Server::builder().layer(..)
+    ServerL(Server<LStack>),
+    RouterL(LRouter),
 }
 impl Target {
     fn add<S>(self, svc: S, opt: Option<bool>) -> Target
@@ -296,6 +461,16 @@ impl Target {
                 Some(true) => r.add_optional_service(Some(svc)),
                 Some(false) => r.add_optional_service(None::<S>),
             }),
+            Target::ServerL(mut s) => Target::RouterL(match opt {
+                None => s.add_service(svc),
+                Some(true) => s.add_optional_service(Some(svc)),
+                Some(false) => s.add_optional_service(None::<S>),
+            }),
+            Target::RouterL(r) => Target::RouterL(match opt {
+                None => r.add_service(svc),
+                Some(true) => r.add_optional_service(Some(svc)),
+                Some(false) => r.add_optional_service(None::<S>),
+            }),
         }
     }
 }
@@ -315,9 +490,11 @@ where
     }
 }
 macro_rules! add_stub {
-    ($t:expr, $i:expr, $w:expr, $methods:expr, $how:expr, $opt:expr; $($n:literal)*) => {
+    ($t:expr, $i:expr, $w:expr, $methods:expr, $how:expr, $opt:expr; $($n:literal)* ; $($o:literal)*) => {
         match $i {
             $($n => reg_generic($t, Stub::<$n> { hits: $w.stub_hits.clone(), methods: $methods }, $how, STUB_NAMES[$n], $w, $opt),)*
+            // names outside the modelled name space: plain registration only
+            $($o => $t.add(Wrap { inner: Stub::<$o> { hits: $w.stub_hits.clone(), methods: $methods }, reached: $w.reached.clone() }, $opt),)*
             _ => panic!("stub index out of range"),
         }
     };
@@ -338,7 +515,9 @@ fn register(t: Target, g: &Reg, w: &World) -> Target {
     match &g.kind {
         Kind::Stub { idx, methods } => {
             let methods = Arc::new(methods.clone());
-            add_stub!(t, *idx, w, methods, g.how, g.opt; 0 1 2 3 4 5 6 7 8 9 10 11 12 13 14 15 16 17 18 19 20 21 22 23 24 25 26 27 28 29)
+            add_stub!(t, *idx, w, methods, g.how, g.opt;
+                0 1 2 3 4 5 6 7 8 9 10 11 12 13 14 15 16 17 18 19 20 21 22 23 24 25 26 27 28 29
+                30 31 32 33 34 35 36 37 38 39 40 41 42 43 44 45 46 47 ; 48 49 50 51 52 53 54 55)
         }
         Kind::Real(0) => add_real!(t, pkg_svc::svc_server::SvcServer<Rec>, g, w),
         Kind::Real(1) => add_real!(t, pkg_svcx::svc_x_server::SvcXServer<Rec>, g, w),
@@ -348,16 +527,27 @@ fn register(t: Target, g: &Reg, w: &World) -> Target {
         Kind::Real(5) => add_real!(t, tonic_reflection::pb::v1::server_reflection_server::ServerReflectionServer<Rec>, g, w),
         Kind::Real(6) => add_real!(t, tonic_reflection::pb::v1alpha::server_reflection_server::ServerReflectionServer<Rec>, g, w),
         Kind::Real(_) => panic!("real index out of range"),
+        Kind::Gen(0) => add_real!(t, id0::http_echo_server::HttpEchoServer<Rec>, g, w),
+        Kind::Gen(1) => add_real!(t, id1::echo_v2_server::EchoV2Server<Rec>, g, w),
+        Kind::Gen(2) => add_real!(t, id2::greeter_server::GreeterServer<Rec>, g, w),
+        Kind::Gen(3) => add_real!(t, id3::http_echo_server::HttpEchoServer<Rec>, g, w),
+        Kind::Gen(4) => add_real!(t, id4::http_echo_server::HttpEchoServer<Rec>, g, w),
+        Kind::Gen(5) => add_real!(t, id5::greeter_server::GreeterServer<Rec>, g, w),
+        Kind::Gen(_) => panic!("identifier fixture index out of range"),
     }
 }
 
 #[derive(Clone, Copy, Debug, PartialEq)]
 enum Via {
-    Direct,      // Routes::default().add_service(..)..
-    New,         // Routes::new(first).add_service(..)..
-    Builder,     // let mut b = Routes::builder(); b.add_service(..); ..; b.routes()
-    BuilderFrom, // RoutesBuilder::from(Routes::default()) ..
+    Direct,          // Routes::default().add_service(..)..
+    New,             // Routes::new(first).add_service(..)..
+    Builder,         // let mut b = Routes::builder(); b.add_service(..); ..; b.routes()
+    BuilderFrom,     // RoutesBuilder::from(Routes::default()) ..
+    FromAxum,        // Routes::from(axum::Router::new()).add_service(..)..   (the CALLER's router)
+    BuilderFromAxum, // RoutesBuilder::from(axum::Router::new()) ..
+    AxumMut,         // Routes::default(), then *axum_router_mut() = axum::Router::new()
 }
+const VIAS: [Via; 7] = [Via::Direct, Via::New, Via::Builder, Via::BuilderFrom, Via::FromAxum, Via::BuilderFromAxum, Via::AxumMut];
 impl Via {
     fn s(self) -> &'static str {
         match self {
@@ -365,13 +555,28 @@ impl Via {
             Via::New => "Routes::new",
             Via::Builder => "RoutesBuilder::add_service(&mut)",
             Via::BuilderFrom => "RoutesBuilder::from(Routes)",
+            Via::FromAxum => "Routes::from(axum::Router::new())",
+            Via::BuilderFromAxum => "RoutesBuilder::from(axum::Router::new())",
+            Via::AxumMut => "*routes.axum_router_mut() = axum::Router::new()",
         }
     }
     fn parse(s: &str) -> Via {
-        [Via::Direct, Via::New, Via::Builder, Via::BuilderFrom].into_iter().find(|h| h.s() == s).unwrap_or(Via::Direct)
+        VIAS.into_iter().find(|h| h.s() == s).unwrap_or(Via::Direct)
     }
+    /// the Routes::default()-rooted ways
     fn pick(r: &mut Rng) -> Via {
         *r.pick(&[Via::Direct, Via::Direct, Via::New, Via::Builder, Via::Builder, Via::BuilderFrom])
+    }
+    /// is the fallback the caller's (axum's default) rather than tonic's `unimplemented`
+    fn user_router(self) -> bool {
+        matches!(self, Via::FromAxum | Via::BuilderFromAxum | Via::AxumMut)
+    }
+    fn base(self) -> &'static str {
+        if self.user_router() {
+            "BaseAxumUser"
+        } else {
+            "BaseTonic"
+        }
     }
 }
 /// Err = add_service panicked
@@ -382,6 +587,13 @@ fn build(regs: &[Reg], w: &World, prepare: bool, via: Via) -> Result<Routes, Str
             Via::New => Target::Fresh,
             Via::Builder => Target::Builder(Routes::builder()),
             Via::BuilderFrom => Target::Builder(RoutesBuilder::from(Routes::default())),
+            Via::FromAxum => Target::Routes(Routes::from(axum::Router::new())),
+            Via::BuilderFromAxum => Target::Builder(RoutesBuilder::from(axum::Router::new())),
+            Via::AxumMut => {
+                let mut r = Routes::default();
+                *r.axum_router_mut() = axum::Router::new();
+                Target::Routes(r)
+            }
         };
         for g in regs {
             t = register(t, g, w);
@@ -399,6 +611,27 @@ fn build(regs: &[Reg], w: &World, prepare: bool, via: Via) -> Result<Routes, Str
         }
     }))
 }
+#[derive(Clone, Copy, Debug, PartialEq)]
+enum ServeBy {
+    Incoming,         // Router::serve_with_incoming over tokio::io::duplex
+    IncomingShutdown, // Router::serve_with_incoming_shutdown (signal never fires) over duplex
+    Tcp,              // Router::serve(addr) on 127.0.0.1
+    TcpShutdown,      // Router::serve_with_shutdown(addr, never) on 127.0.0.1
+}
+const SERVES: [ServeBy; 4] = [ServeBy::Incoming, ServeBy::IncomingShutdown, ServeBy::Tcp, ServeBy::TcpShutdown];
+impl ServeBy {
+    fn s(self) -> &'static str {
+        match self {
+            ServeBy::Incoming => "serve_with_incoming",
+            ServeBy::IncomingShutdown => "serve_with_incoming_shutdown",
+            ServeBy::Tcp => "serve(addr) over 127.0.0.1",
+            ServeBy::TcpShutdown => "serve_with_shutdown(addr, signal) over 127.0.0.1",
+        }
+    }
+    fn parse(s: &str) -> ServeBy {
+        SERVES.into_iter().find(|h| h.s() == s).unwrap_or(ServeBy::Incoming)
+    }
+}
 /// how the transport Router is put together
 #[derive(Clone, Copy, Debug, PartialEq)]
 struct TPlan {
@@ -408,20 +641,22 @@ struct TPlan {
     routes_first: Option<usize>,
     via: Via,
     prepare: bool,
-    /// serve_with_incoming_shutdown (signal never fires) instead of serve_with_incoming
-    with_shutdown: bool,
+    serve: ServeBy,
+    /// Server::builder().layer(PassLayer) first
+    layer: bool,
 }
 impl TPlan {
-    const PLAIN: TPlan = TPlan { routes_first: None, via: Via::Direct, prepare: false, with_shutdown: false };
+    const PLAIN: TPlan = TPlan { routes_first: None, via: Via::Direct, prepare: false, serve: ServeBy::Incoming, layer: false };
     fn json(&self) -> Value {
-        json!({"add_routes_with_first": self.routes_first, "via": self.via.s(), "prepare": self.prepare, "serve_with_incoming_shutdown": self.with_shutdown})
+        json!({"add_routes_with_first": self.routes_first, "via": self.via.s(), "prepare": self.prepare, "serve": self.serve.s(), "server_layer": self.layer})
     }
     fn from_json(v: &Value) -> TPlan {
         TPlan {
             routes_first: v["add_routes_with_first"].as_u64().map(|k| k as usize),
             via: Via::parse(v["via"].as_str().unwrap_or("")),
             prepare: v["prepare"].as_bool().unwrap_or(false),
-            with_shutdown: v["serve_with_incoming_shutdown"].as_bool().unwrap_or(false),
+            serve: ServeBy::parse(v["serve"].as_str().unwrap_or("")),
+            layer: v["server_layer"].as_bool().unwrap_or(false),
         }
     }
     fn gen(r: &mut Rng, n: usize) -> TPlan {
@@ -429,15 +664,26 @@ impl TPlan {
             routes_first: if r.chance(1, 2) { Some(r.range(0, n as u64) as usize) } else { None },
             via: Via::pick(r),
             prepare: r.chance(1, 3),
-            with_shutdown: r.chance(1, 2),
+            serve: *r.pick(&[ServeBy::Incoming, ServeBy::Incoming, ServeBy::IncomingShutdown, ServeBy::IncomingShutdown, ServeBy::Tcp, ServeBy::TcpShutdown]),
+            layer: r.chance(1, 3),
+        }
+    }
+    /// the base the model is asked about: the caller's axum router only if add_routes got one
+    fn base(&self) -> &'static str {
+        if self.routes_first.is_some() {
+            self.via.base()
+        } else {
+            "BaseTonic"
         }
     }
 }
 /// Server::builder().add_service(a).add_service(b).add_optional_service(..), or
 /// Server::builder().add_routes(routes_with_services).add_service(..)..
-fn build_transport(regs: &[Reg], w: &World, plan: TPlan) -> Result<TRouter, String> {
+fn build_transport(regs: &[Reg], w: &World, plan: TPlan) -> Result<AnyRouter, String> {
     catch(std::panic::AssertUnwindSafe(|| {
+        let pass = PassLayer::default();
         let (mut t, rest) = match plan.routes_first {
+            None if plan.layer => (Target::ServerL(Server::builder().layer(pass.clone())), regs),
             None => (Target::Server(Server::builder()), regs),
             Some(k) => {
                 let k = k.min(regs.len());
@@ -445,15 +691,21 @@ fn build_transport(regs: &[Reg], w: &World, plan: TPlan) -> Result<TRouter, Stri
                     Ok(r) => r,
                     Err(p) => panic!("{}", p),
                 };
-                (Target::Router(Server::builder().add_routes(routes)), &regs[k..])
+                if plan.layer {
+                    (Target::RouterL(Server::builder().layer(pass.clone()).add_routes(routes)), &regs[k..])
+                } else {
+                    (Target::Router(Server::builder().add_routes(routes)), &regs[k..])
+                }
             }
         };
         for g in rest {
             t = register(t, g, w);
         }
         match t {
-            Target::Server(mut s) => s.add_routes(Routes::default()),
-            Target::Router(r) => r,
+            Target::Server(mut s) => AnyRouter::Plain(s.add_routes(Routes::default())),
+            Target::Router(r) => AnyRouter::Plain(r),
+            Target::ServerL(mut s) => AnyRouter::Layered(s.add_routes(Routes::default()), pass.seen),
+            Target::RouterL(r) => AnyRouter::Layered(r, pass.seen),
             _ => unreachable!(),
         }
     }))
@@ -471,12 +723,25 @@ struct Obs {
 }
 /// one gRPC frame holding an empty message: lets the real generated servers reach the handler
 const FRAME: &[u8] = &[0, 0, 0, 0, 0];
+/// request methods: routing must not look at them.  CONNECT cannot be sent with a path over h2.
+const METHS: &[&str] = &["GET", "PUT", "DELETE", "HEAD", "OPTIONS", "PATCH", "TRACE", "FOO", "post", "CONNECT"];
+fn gen_meth(r: &mut Rng, wire: bool) -> &'static str {
+    if r.chance(7, 10) {
+        return "POST";
+    }
+    loop {
+        let m = *r.pick(METHS);
+        if !(wire && m == "CONNECT") {
+            return m;
+        }
+    }
+}
 
-fn request(routes: &Routes, w: &World, uri: &http::Uri) -> Result<Obs, String> {
+fn request(routes: &Routes, w: &World, meth: &str, uri: &http::Uri) -> Result<Obs, String> {
     w.clear();
     let body = Body::new(http_body_util::Full::new(Bytes::from_static(FRAME)));
     let req = http::Request::builder()
-        .method("POST")
+        .method(meth)
         .version(http::Version::HTTP_2) // gRPC is HTTP/2; GrpcWebService answers 400 to anything else
         .uri(uri.clone())
         .header("content-type", "application/grpc")
@@ -512,34 +777,80 @@ fn request(routes: &Routes, w: &World, uri: &http::Uri) -> Result<Obs, String> {
     }
 }
 
-/// the same over a real connection: the transport Router served with serve_with_incoming on one
-/// end of tokio::io::duplex, a raw h2 client on the other (so that arbitrary paths can be sent)
-fn wire_requests(router: TRouter, w: &World, uris: &[http::Uri], with_shutdown: bool) -> Vec<Result<Obs, String>> {
+/// the same over a real connection: the transport Router served (serve_with_incoming[_shutdown]
+/// on one end of tokio::io::duplex, or serve / serve_with_shutdown on a 127.0.0.1 listener), a
+/// raw h2 client on the other end (so that arbitrary paths and methods can be sent)
+fn wire_requests(router: AnyRouter, w: &World, reqs: &[(&'static str, http::Uri)], by: ServeBy) -> Vec<Result<Obs, String>> {
+    let layer_seen = match &router {
+        AnyRouter::Layered(_, seen) => Some(seen.clone()),
+        AnyRouter::Plain(_) => None,
+    };
     use tokio_stream::StreamExt;
     let rt = tokio::runtime::Builder::new_current_thread().enable_all().build().unwrap();
     let out = rt.block_on(async {
-        let (client_io, server_io) = tokio::io::duplex(1 << 16);
-        let incoming = tokio_stream::once(Ok::<_, std::io::Error>(server_io)).chain(tokio_stream::pending());
-        tokio::spawn(async move {
-            if with_shutdown {
-                let _ = router.serve_with_incoming_shutdown(incoming, std::future::pending::<()>()).await;
-            } else {
-                let _ = router.serve_with_incoming(incoming).await;
+        let fail = |e: String| -> Vec<Result<Obs, String>> { reqs.iter().map(|_| Err(e.clone())).collect() };
+        let handshake = match by {
+            ServeBy::Incoming | ServeBy::IncomingShutdown => {
+                let (client_io, server_io) = tokio::io::duplex(1 << 16);
+                let incoming = tokio_stream::once(Ok::<_, std::io::Error>(server_io)).chain(tokio_stream::pending());
+                tokio::spawn(async move {
+                    match (router, by == ServeBy::IncomingShutdown) {
+                        (AnyRouter::Plain(r), true) => drop(r.serve_with_incoming_shutdown(incoming, std::future::pending::<()>()).await),
+                        (AnyRouter::Plain(r), false) => drop(r.serve_with_incoming(incoming).await),
+                        (AnyRouter::Layered(r, _), true) => drop(r.serve_with_incoming_shutdown(incoming, std::future::pending::<()>()).await),
+                        (AnyRouter::Layered(r, _), false) => drop(r.serve_with_incoming(incoming).await),
+                    }
+                });
+                h2::client::handshake(Box::new(client_io) as Box<dyn Io>).await
             }
-        });
-        let (send, conn) = match h2::client::handshake(client_io).await {
+            ServeBy::Tcp | ServeBy::TcpShutdown => {
+                // a free port: bind, read the address, release; Router::serve binds it again
+                let addr = {
+                    let l = std::net::TcpListener::bind("127.0.0.1:0").expect("bind 127.0.0.1:0");
+                    l.local_addr().unwrap()
+                };
+                let (err_tx, mut err_rx) = tokio::sync::mpsc::unbounded_channel::<String>();
+                tokio::spawn(async move {
+                    let r = match (router, by == ServeBy::TcpShutdown) {
+                        (AnyRouter::Plain(r), true) => r.serve_with_shutdown(addr, std::future::pending::<()>()).await,
+                        (AnyRouter::Plain(r), false) => r.serve(addr).await,
+                        (AnyRouter::Layered(r, _), true) => r.serve_with_shutdown(addr, std::future::pending::<()>()).await,
+                        (AnyRouter::Layered(r, _), false) => r.serve(addr).await,
+                    };
+                    if let Err(e) = r {
+                        let _ = err_tx.send(format!("{:?}", e));
+                    }
+                });
+                let mut stream = None;
+                for _ in 0..400 {
+                    if let Ok(e) = err_rx.try_recv() {
+                        return fail(format!("Router::serve failed: {}", e));
+                    }
+                    match tokio::net::TcpStream::connect(addr).await {
+                        Ok(s) => {
+                            stream = Some(s);
+                            break;
+                        }
+                        Err(_) => tokio::time::sleep(std::time::Duration::from_millis(5)).await,
+                    }
+                }
+                let Some(stream) = stream else { return fail("could not connect to the served address".to_string()) };
+                h2::client::handshake(Box::new(stream) as Box<dyn Io>).await
+            }
+        };
+        let (send, conn) = match handshake {
             Ok(x) => x,
-            Err(e) => return uris.iter().map(|_| Err(format!("h2 handshake: {}", e))).collect(),
+            Err(e) => return fail(format!("h2 handshake: {}", e)),
         };
         tokio::spawn(async move {
             let _ = conn.await;
         });
         let mut out = vec![];
-        for uri in uris {
+        for (meth, uri) in reqs {
             w.clear();
             let one = async {
                 let req = http::Request::builder()
-                    .method("POST")
+                    .method(*meth)
                     .uri(uri.clone())
                     .header("content-type", "application/grpc")
                     .header("te", "trailers")
@@ -551,20 +862,28 @@ fn wire_requests(router: TRouter, w: &World, uris: &[http::Uri], with_shutdown: 
                 let resp = resp.await.map_err(|e| format!("h2 response: {}", e))?;
                 let (parts, mut body) = resp.into_parts();
                 let mut data = vec![];
-                while let Some(chunk) = body.data().await {
+                // the response to HEAD has no body by definition (the h2 client refuses DATA there,
+                // which is what a handler that answers HEAD with a message runs into)
+                while let Some(chunk) = if *meth == "HEAD" { None } else { body.data().await } {
                     let c = chunk.map_err(|e| format!("h2 data: {}", e))?;
                     let _ = body.flow_control().release_capacity(c.len());
                     data.extend_from_slice(&c);
                 }
-                let trailers = body.trailers().await.map_err(|e| format!("h2 trailers: {}", e))?;
+                let trailers = if *meth == "HEAD" { None } else { body.trailers().await.map_err(|e| format!("h2 trailers: {}", e))? };
                 let mut headers = parts.headers;
                 // the only hop-level header hyper adds; everything else is what Routes answered
                 headers.remove("date");
                 Ok::<Obs, String>(Obs { hits: w.hits(), reached: w.reached.lock().unwrap().clone(), http: parts.status.as_u16(), headers, body: data, trailers })
             };
-            out.push(match tokio::time::timeout(std::time::Duration::from_secs(20), one).await {
+            let before = layer_seen.as_ref().map(|s| *s.lock().unwrap());
+            let res = match tokio::time::timeout(std::time::Duration::from_secs(20), one).await {
                 Ok(r) => r,
                 Err(_) => Err("no response within 20 s".to_string()),
+            };
+            // behind Server::layer every request goes through the layer, once
+            out.push(match (res, before, layer_seen.as_ref().map(|s| *s.lock().unwrap())) {
+                (Ok(_), Some(b), Some(a)) if a != b + 1 => Err(format!("Server::layer: the request passed the layer {} times", a - b)),
+                (r, _, _) => r,
             });
         }
         out
@@ -572,6 +891,8 @@ fn wire_requests(router: TRouter, w: &World, uris: &[http::Uri], with_shutdown: 
     drop(rt);
     out
 }
+trait Io: tokio::io::AsyncRead + tokio::io::AsyncWrite + Unpin + Send {}
+impl<T: tokio::io::AsyncRead + tokio::io::AsyncWrite + Unpin + Send> Io for T {}
 
 fn obs_tr(o: &Result<Obs, String>) -> Tr {
     match o {
@@ -596,8 +917,13 @@ fn obs_tr(o: &Result<Obs, String>) -> Tr {
         }
     }
 }
-/// The property, checked directly: independent of the model's route/dispatch split.
-fn oracle(regs: &[Reg], path: &str, o: &Result<Obs, String>) -> Option<String> {
+/// The property, checked directly: independent of the model's route/dispatch split and of the
+/// code generator (names and methods come from the hand-written tables, in proto spelling).
+/// `user_router`: the Routes was built on a router supplied by the caller (kind from_axum): the
+/// answer to a path whose first segment is NOT a registered name is that router's own fallback
+/// (axum's default: HTTP 404 without grpc-status) - see checks/C10.json, assumptions; everything
+/// else is judged as strictly as on Routes::default().
+fn oracle(regs: &[Reg], path: &str, o: &Result<Obs, String>, user_router: bool) -> Option<String> {
     let o = match o {
         Err(e) => return Some(e.clone()),
         Ok(o) => o,
@@ -623,8 +949,21 @@ fn oracle(regs: &[Reg], path: &str, o: &Result<Obs, String>) -> Option<String> {
     if !o.hits.is_empty() {
         return Some(format!("path {:?} names no registered method but reached handler {:?}", path, o.hits));
     }
-    // a well-formed UNIMPLEMENTED answer (gRPC "Trailers-Only")
     let vals = |k: &str| -> Vec<Vec<u8>> { o.headers.get_all(k).iter().map(|v| v.as_bytes().to_vec()).collect() };
+    if user_router {
+        let names_a_service = regs.iter().any(|g| {
+            let p = format!("/{}/", g.name());
+            path.starts_with(&p) && path.len() > p.len()
+        });
+        if !names_a_service {
+            // the caller's fallback answers; tonic's must not have been installed over it
+            if o.http == 404 && vals("grpc-status").is_empty() && o.body.is_empty() {
+                return None;
+            }
+            return Some(format!("Routes on the caller's axum::Router: path {:?} names no registered service, expected that router's fallback (404, no grpc-status), got HTTP {} grpc-status {:?}", path, o.http, vals("grpc-status")));
+        }
+    }
+    // a well-formed UNIMPLEMENTED answer (gRPC "Trailers-Only")
     if vals("grpc-status") != vec![b"12".to_vec()] {
         return Some(format!(
             "path {:?} names no registered method but grpc-status headers are {:?}, not exactly one 12",
@@ -642,6 +981,11 @@ fn oracle(regs: &[Reg], path: &str, o: &Result<Obs, String>) -> Option<String> {
             vals("content-type").iter().map(|v| String::from_utf8_lossy(v).to_string()).collect::<Vec<_>>()
         ));
     }
+    // grpc-message: at most one, and then a legal percent-encoded value (printable ASCII)
+    let msgs = vals("grpc-message");
+    if msgs.len() > 1 || msgs.iter().any(|m| m.iter().any(|b| !(0x20..0x7f).contains(b))) {
+        return Some(format!("UNIMPLEMENTED answer for {:?} has malformed grpc-message headers {:?}", path, msgs));
+    }
     if !o.body.is_empty() {
         return Some(format!("UNIMPLEMENTED answer for {:?} has a body of {} bytes", path, o.body.len()));
     }
@@ -656,17 +1000,26 @@ fn oracle(regs: &[Reg], path: &str, o: &Result<Obs, String>) -> Option<String> {
 // ------------------------------------------------------------------ generators
 const METHODS: &[&str] = &[
     "Get", "GetX", "Ge", "get", "GET", "List", "Put", "Chat", "Check", "Watch", "type", "M", "m", "a", "a.b",
-    "x%2Fy", "Get/x", "\u{e9}", "ServerReflectionInfo", "Get_1",
+    "x%2Fy", "Get/x", "\u{e9}", "ServerReflectionInfo", "Get_1", "Ping", "GetURL", "SayHello", "get_url", "\u{4e16}\u{754c}", "\u{1f600}",
 ];
 /// groups of names one of which is a prefix / case variant / near miss of another
 const FAMILIES: &[&[usize]] = &[
-    &[0, 1, 3, 4, 5, 24],  // pkg.Svc pkg.SvcX pkg.Svc.Inner pkg.Sv pkg "pkg.Svc."
-    &[0, 6, 7, 2, 8, 25],  // pkg.Svc pkg.svc PKG.SVC Svc svc .Svc
+    &[0, 1, 3, 4, 5, 24, 30, 31],  // pkg.Svc pkg.SvcX pkg.Svc.Inner pkg.Sv pkg "pkg.Svc." pkg.Svc2 pkg.Svc_
+    &[0, 6, 7, 2, 8, 25, 34, 35, 32, 33],  // pkg.Svc pkg.svc PKG.SVC Svc svc .Svc Pkg.Svc pkg.SVC pkg_Svc pkg..Svc
     &[2, 9, 10, 8],        // Svc S Sv svc
-    &[11, 12, 13, 14, 23], // a a.b a.b.C a_b.C1 a-b
-    &[15, 16, 17],         // health names
-    &[18, 27, 26, 19, 20, 21, 22], // x%2Fy x%2fy x a*b a:b "" é
+    &[11, 12, 13, 14, 23, 36, 40, 41, 42, 43, 44, 45], // a a.b a.b.C a_b.C1 a-b a.b.c.d.e.F a+b a=b a;b a,b a@b a!b
+    &[15, 16, 17, 37],     // health names, the very long name
+    &[18, 27, 26, 19, 20, 21, 22, 38, 39], // x%2Fy x%2fy x a*b a:b "" é 0 ~
 ];
+/// a stub index inside the modelled name space that axum accepts
+fn pick_idx(r: &mut Rng) -> usize {
+    loop {
+        let i = r.below(N_MODEL as u64) as usize;
+        if !REJECTED.contains(&i) {
+            return i;
+        }
+    }
+}
 fn gen_methods(r: &mut Rng) -> Vec<String> {
     let n = match r.below(8) {
         0 => 0,
@@ -698,6 +1051,16 @@ fn gen_how(r: &mut Rng, real: bool) -> How {
         }
     }
 }
+fn gen_kind(r: &mut Rng, fam: &[usize]) -> Kind {
+    match r.below(8) {
+        0 => Kind::Real(r.below(7) as usize),
+        1 | 2 => Kind::Gen(r.below(ID_FIXTURE.len() as u64) as usize),
+        _ => {
+            let idx = if r.chance(3, 4) { *r.pick(fam) } else { pick_idx(r) };
+            Kind::Stub { idx, methods: gen_methods(r) }
+        }
+    }
+}
 fn gen_regs(r: &mut Rng, max: u64, min: u64) -> Vec<Reg> {
     let n = r.range(min, max) as usize;
     let mut v: Vec<Reg> = vec![];
@@ -705,13 +1068,8 @@ fn gen_regs(r: &mut Rng, max: u64, min: u64) -> Vec<Reg> {
     let mut tries = 0;
     while v.len() < n && tries < 80 {
         tries += 1;
-        let kind = if r.chance(1, 4) {
-            Kind::Real(r.below(7) as usize)
-        } else {
-            let idx = if r.chance(3, 4) { *r.pick(fam) } else { r.below(N_MODEL as u64) as usize };
-            Kind::Stub { idx, methods: gen_methods(r) }
-        };
-        let real = matches!(kind, Kind::Real(_));
+        let kind = gen_kind(r, fam);
+        let real = !matches!(kind, Kind::Stub { .. });
         let g = Reg { kind, how: gen_how(r, real), opt: None };
         if v.iter().all(|x| x.name() != g.name()) {
             v.push(g);
@@ -732,10 +1090,66 @@ fn outcome_class(o: &Result<Obs, String>) -> &'static str {
         Ok(_) => "unimpl.fallback",
     }
 }
+fn coq_request(meth: &str, path: &str) -> String {
+    format!("(mkRequest {} {})", coq_bytes(meth.as_bytes()), coq_bytes(path.as_bytes()))
+}
+fn coq_regs(regs: &[Reg]) -> String {
+    coq_list(regs, |g| g.coq())
+}
+fn regs_json(regs: &[Reg]) -> Vec<Value> {
+    regs.iter().map(|g| g.json()).collect()
+}
+/// a PathTap records the path every request of a generated client carries, then forwards to Routes
+#[derive(Clone)]
+struct PathTap {
+    inner: Routes,
+    sent: Arc<Mutex<Vec<String>>>,
+}
+impl Service<http::Request<Body>> for PathTap {
+    type Response = http::Response<Body>;
+    type Error = Infallible;
+    type Future = <Routes as Service<http::Request<Body>>>::Future;
+    fn poll_ready(&mut self, cx: &mut std::task::Context<'_>) -> std::task::Poll<Result<(), Infallible>> {
+        Service::<http::Request<Body>>::poll_ready(&mut self.inner, cx)
+    }
+    fn call(&mut self, req: http::Request<Body>) -> Self::Future {
+        self.sent.lock().unwrap().push(req.uri().path().to_string());
+        self.inner.call(req)
+    }
+}
+/// calls method j of the generated CLIENT of ID_FIXTURE[k]; Err(()) = did not complete
+fn client_call(tap: PathTap, k: usize, j: usize) -> Result<Result<(), tonic::Status>, ()> {
+    use h_router::*;
+    const N: usize = 200_000;
+    fn one() -> Msg {
+        Msg(vec![7])
+    }
+    fn many() -> tokio_stream::Iter<std::vec::IntoIter<Msg>> {
+        tokio_stream::iter(vec![Msg(vec![7]), Msg(vec![8])])
+    }
+    fn done<T>(r: Result<Result<tonic::Response<T>, tonic::Status>, ()>) -> Result<Result<(), tonic::Status>, ()> {
+        r.map(|x| x.map(|_| ()))
+    }
+    match (k, j) {
+        (0, 0) => done(spin(id0::http_echo_client::HttpEchoClient::new(tap).ping(one()), N)),
+        (0, 1) => done(spin(id0::http_echo_client::HttpEchoClient::new(tap).get_url(one()), N)),
+        (0, 2) => done(spin(id0::http_echo_client::HttpEchoClient::new(tap).stream_v2(one()), N)),
+        (1, 0) => done(spin(id1::echo_v2_client::EchoV2Client::new(tap).echo(one()), N)),
+        (1, 1) => done(spin(id1::echo_v2_client::EchoV2Client::new(tap).echo_all(many()), N)),
+        (2, 0) => done(spin(id2::greeter_client::GreeterClient::new(tap).say_hello(one()), N)),
+        (2, 1) => done(spin(id2::greeter_client::GreeterClient::new(tap).say_hello_again(many()), N)),
+        (3, 0) => done(spin(id3::http_echo_client::HttpEchoClient::new(tap).ping(one()), N)),
+        (4, 0) => done(spin(id4::http_echo_client::HttpEchoClient::new(tap).ping(one()), N)),
+        (4, 1) => done(spin(id4::http_echo_client::HttpEchoClient::new(tap).only_here(one()), N)),
+        (5, 0) => done(spin(id5::greeter_client::GreeterClient::new(tap).say_hello(one()), N)),
+        _ => panic!("no such identifier-fixture method"),
+    }
+}
 struct Ctx {
     out: Out,
     w: World,
     unparsable: u64,
+    outside_behaviour: std::collections::BTreeMap<String, u64>,
 }
 impl Ctx {
     fn parse_uri(&mut self, uri_text: &str) -> Option<http::Uri> {
@@ -751,47 +1165,74 @@ impl Ctx {
             }
         }
     }
+    /// a request target given as raw bytes (not necessarily UTF-8): http::Uri must refuse what is not
+    /// UTF-8, so that `Uri::path()` - a &str - is sound; counted, nothing to send
+    fn raw_target(&mut self, raw: &[u8]) {
+        match http::Uri::from_maybe_shared(Bytes::copy_from_slice(raw)) {
+            Ok(u) if std::str::from_utf8(raw).is_err() => {
+                // would make req.uri().path() a non-UTF-8 &str
+                self.out.hist("raw_target", "NON-UTF-8 ACCEPTED by http::Uri");
+                self.out.push(Case {
+                    kind: "raw_target".into(),
+                    input: json!({"raw": hex(raw)}),
+                    model: "Nd [Nn 0]".into(),
+                    impl_obs: Tr::L(vec![Tr::n(1u8)]),
+                    oracle: Some(format!("http::Uri accepted the non-UTF-8 request target {:?} (path {:?}): outside the model's assumption that paths are what Uri::path() returns", hex(raw), u.path())),
+                    nontrivial: true,
+                });
+            }
+            Ok(_) => self.out.hist("raw_target", "valid UTF-8, accepted"),
+            Err(_) => self.out.hist("raw_target", "rejected by http::Uri (cannot reach tonic)"),
+        }
+    }
     fn hist_outcome(&mut self, regs: &[Reg], o: &Result<Obs, String>) {
         let c = outcome_class(o);
         self.out.hist("outcome", c);
         if let Ok(o) = o {
             if let Some(name) = o.reached.first() {
                 if let Some(g) = regs.iter().find(|g| g.name() == name) {
-                    self.out.hist(&format!("{}.by", c), if g.is_real() { "real generated server" } else { "stub" });
+                    self.out.hist(&format!("{}.by", c), match g.kind {
+                        Kind::Stub { .. } => "stub",
+                        Kind::Real(_) => "real generated server (name() == identifier())",
+                        Kind::Gen(_) => "real generated server (name() != identifier() / emit_package off)",
+                    });
                     self.out.hist(&format!("{}.name_through", c), g.how.s());
                 }
             }
         }
     }
-    fn hist_regs(&mut self, k: &str, regs: &[Reg], mutation: &str) {
+    fn hist_regs(&mut self, k: &str, regs: &[Reg], mutation: &str, meth: &str) {
         self.out.hist(&format!("{}.services", k), regs.len());
         self.out.hist("real_generated_servers", regs.iter().filter(|g| g.is_real()).count());
+        self.out.hist("identifier_fixture_servers", regs.iter().filter(|g| matches!(g.kind, Kind::Gen(_))).count());
         for g in regs {
             self.out.hist("registered.name_through", g.how.s());
         }
         for m in mutation.split('+') {
             self.out.hist("mutation", m);
         }
+        self.out.hist("method", meth);
     }
-    /// kind serve: registration in the given order, one request
-    fn serve(&mut self, kind: &str, regs: &[Reg], routes: &Result<Routes, String>, uri_text: &str, mutation: &str, prepare: bool, via: Via) {
+    /// kind serve / from_axum: registration in the given order, one request
+    #[allow(clippy::too_many_arguments)]
+    fn serve(&mut self, kind: &str, regs: &[Reg], routes: &Result<Routes, String>, meth: &'static str, uri_text: &str, mutation: &str, prepare: bool, via: Via) {
         let Some(uri) = self.parse_uri(uri_text) else { return };
         let path = uri.path().to_string();
         let (obs, orc) = match routes {
             Err(p) => (Tr::L(vec![Tr::n(99u8)]), Some(format!("registration panicked: {}", p))),
             Ok(routes) => {
-                let o = request(routes, &self.w, &uri);
+                let o = request(routes, &self.w, meth, &uri);
                 self.hist_outcome(regs, &o);
-                (obs_tr(&o), oracle(regs, &path, &o))
+                (obs_tr(&o), oracle(regs, &path, &o, via.user_router()))
             }
         };
-        self.hist_regs("serve", regs, mutation);
+        self.hist_regs("serve", regs, mutation, meth);
         self.out.hist("serve.via", via.s());
         self.out.hist("serve.prepare", prepare);
-        let model = format!("obs_serve {} {}", coq_list(regs, |g| g.coq()), coq_bytes(path.as_bytes()));
+        let model = format!("obs_gserve {} {} {}", via.base(), coq_regs(regs), coq_request(meth, &path));
         self.out.push(Case {
             kind: kind.to_string(),
-            input: json!({"services": regs.iter().map(|g| g.json()).collect::<Vec<_>>(), "uri": uri_text, "path": path, "prepare": prepare, "via": via.s(), "mutation": mutation}),
+            input: json!({"services": regs_json(regs), "method": meth, "uri": uri_text, "path": path, "prepare": prepare, "via": via.s(), "mutation": mutation}),
             model,
             impl_obs: obs,
             oracle: orc,
@@ -801,7 +1242,8 @@ impl Ctx {
     /// kinds orders / orders.sampled: the same request against several registration orders.
     /// `idxs` = None: all n! orders as Model.Router.perms enumerates them (n <= 4);
     /// Some: the given arrangements of 0..n-1
-    fn orders(&mut self, kind: &str, regs: &[Reg], all: &[(Vec<Reg>, Result<Routes, String>)], idxs: Option<&Vec<Vec<usize>>>, uri_text: &str, mutation: &str, prepare: bool, via: Via) {
+    #[allow(clippy::too_many_arguments)]
+    fn orders(&mut self, kind: &str, regs: &[Reg], all: &[(Vec<Reg>, Result<Routes, String>)], idxs: Option<&Vec<Vec<usize>>>, meth: &'static str, uri_text: &str, mutation: &str, prepare: bool, via: Via) {
         let Some(uri) = self.parse_uri(uri_text) else { return };
         let path = uri.path().to_string();
         let mut trs = vec![];
@@ -814,8 +1256,8 @@ impl Ctx {
                     orc = orc.or(Some(format!("registration panicked: {}", p)));
                 }
                 Ok(routes) => {
-                    let o = request(routes, &self.w, &uri);
-                    orc = orc.or(oracle(order, &path, &o));
+                    let o = request(routes, &self.w, meth, &uri);
+                    orc = orc.or(oracle(order, &path, &o, via.user_router()));
                     trs.push(obs_tr(&o));
                     match &first {
                         None => first = Some(o),
@@ -836,54 +1278,56 @@ impl Ctx {
         if let Some(f) = &first {
             self.hist_outcome(regs, f);
         }
-        self.hist_regs("orders", regs, mutation);
+        self.hist_regs("orders", regs, mutation, meth);
         self.out.hist("orders.prepare", prepare);
         self.out.hist("orders.via", via.s());
         self.out.hist("orders.orders_tried", all.len());
         let model = match idxs {
-            None => format!("obs_orders {} {}", coq_list(regs, |g| g.coq()), coq_bytes(path.as_bytes())),
+            None => format!("obs_gorders {} {} {}", via.base(), coq_regs(regs), coq_request(meth, &path)),
             Some(ix) => format!(
-                "obs_orders_at {} {} {}",
-                coq_list(regs, |g| g.coq()),
+                "obs_gorders_at {} {} {} {}",
+                via.base(),
+                coq_regs(regs),
                 coq_list(ix, |p| coq_list(p, |i| i.to_string())),
-                coq_bytes(path.as_bytes())
+                coq_request(meth, &path)
             ),
         };
         self.out.push(Case {
             kind: kind.to_string(),
-            input: json!({"services": regs.iter().map(|g| g.json()).collect::<Vec<_>>(), "uri": uri_text, "path": path, "orders": all.len(), "order_indices": idxs, "prepare": prepare, "via": via.s(), "mutation": mutation}),
+            input: json!({"services": regs_json(regs), "method": meth, "uri": uri_text, "path": path, "orders": all.len(), "order_indices": idxs, "prepare": prepare, "via": via.s(), "mutation": mutation}),
             model,
             impl_obs: Tr::L(trs),
             oracle: orc,
             nontrivial: regs.len() >= 2 && path.len() > 1,
         });
     }
-    /// kind transport: Server::builder() registration, served over duplex, raw h2 client
-    fn transport(&mut self, kind: &str, regs: &[Reg], uris: &[(String, String)], plan: TPlan) {
+    /// kind transport: Server::builder() registration, served over duplex or 127.0.0.1, raw h2 client
+    fn transport(&mut self, kind: &str, regs: &[Reg], uris: &[(String, String, &'static str)], plan: TPlan) {
         let model_regs = present(regs);
-        let parsed: Vec<(String, String, http::Uri)> = uris
+        let parsed: Vec<(String, String, &'static str, http::Uri)> = uris
             .iter()
-            .filter_map(|(u, d)| {
+            .filter_map(|(u, d, meth)| {
                 // an h2 request needs scheme and authority; only origin-form texts are sent
-                if !u.starts_with('/') {
+                if !u.starts_with('/') || *meth == "CONNECT" {
                     return None;
                 }
                 let uri = self.parse_uri(&format!("http://h{}", u))?;
-                Some((u.clone(), d.clone(), uri))
+                Some((u.clone(), d.clone(), *meth, uri))
             })
             .collect();
         let router = build_transport(regs, &self.w, plan);
         let results: Vec<Result<Obs, String>> = match router {
             Err(p) => parsed.iter().map(|_| Err(format!("registration panicked: {}", p))).collect(),
             Ok(router) => {
-                let us: Vec<http::Uri> = parsed.iter().map(|p| p.2.clone()).collect();
-                wire_requests(router, &self.w, &us, plan.with_shutdown)
+                let us: Vec<(&'static str, http::Uri)> = parsed.iter().map(|p| (p.2, p.3.clone())).collect();
+                wire_requests(router, &self.w, &us, plan.serve)
             }
         };
-        for ((text, mutation, uri), o) in parsed.iter().zip(results) {
+        let user_router = plan.base() == "BaseAxumUser";
+        for ((text, mutation, meth, uri), o) in parsed.iter().zip(results) {
             let path = uri.path().to_string();
             self.hist_outcome(&model_regs, &o);
-            self.hist_regs("transport", &model_regs, mutation);
+            self.hist_regs("transport", &model_regs, mutation, meth);
             for (i, g) in regs.iter().enumerate() {
                 let in_routes = plan.routes_first.map(|k| i < k).unwrap_or(false);
                 self.out.hist("transport.added_by", match (in_routes, g.opt) {
@@ -895,14 +1339,23 @@ impl Ctx {
                 });
             }
             self.out.hist("transport.add_routes", match plan.routes_first { None => "not used".to_string(), Some(k) => format!("with {} services", k.min(regs.len())) });
-            self.out.hist("transport.serve", if plan.with_shutdown { "serve_with_incoming_shutdown" } else { "serve_with_incoming" });
-            let model = format!("obs_serve {} {}", coq_list(&model_regs, |g| g.coq()), coq_bytes(path.as_bytes()));
+            self.out.hist("transport.serve", plan.serve.s());
+            self.out.hist("transport.server_layer", plan.layer);
+            // the model is handed EVERYTHING that was passed to the builder, with how it was passed
+            // (add_service / add_optional_service(Some) / add_optional_service(None)); which of
+            // them end up registered is the model's business (transport_regs)
+            let model = format!(
+                "obs_gtransport {} {} {}",
+                plan.base(),
+                coq_list(regs, |g| format!("({}, {})", g.coq(), match g.opt { None => "None", Some(true) => "(Some true)", Some(false) => "(Some false)" })),
+                coq_request(meth, &path)
+            );
             self.out.push(Case {
                 kind: kind.to_string(),
-                input: json!({"services": regs.iter().map(|g| g.json()).collect::<Vec<_>>(), "uri": text, "path": path, "mutation": mutation, "plan": plan.json()}),
+                input: json!({"services": regs_json(regs), "method": meth, "uri": text, "path": path, "mutation": mutation, "plan": plan.json()}),
                 model,
                 impl_obs: obs_tr(&o),
-                oracle: oracle(&model_regs, &path, &o),
+                oracle: oracle(&model_regs, &path, &o, user_router),
                 nontrivial: model_regs.len() >= 2 && path.len() > 1,
             });
         }
@@ -922,14 +1375,123 @@ impl Ctx {
         self.out.hist("build.via", via.s());
         self.out.push(Case {
             kind: kind.to_string(),
-            input: json!({"services": regs.iter().map(|g| g.json()).collect::<Vec<_>>(), "via": via.s()}),
-            model: format!("obs_build {}", coq_list(regs, |g| g.coq())),
+            input: json!({"services": regs_json(regs), "via": via.s()}),
+            model: format!("obs_gbuild {}", coq_regs(regs)),
             impl_obs: match r {
                 Ok(_) => Tr::L(vec![Tr::n(1u8), Tr::n(regs.len() as u64)]),
                 Err(_) => Tr::L(vec![Tr::n(0u8)]),
             },
             oracle: orc,
             nontrivial: regs.len() >= 2,
+        });
+    }
+    /// kind *.outside: a NAME with '/', '{' or '}' is OUTSIDE the model (matchit syntax): the model
+    /// must say so (obs_outside) instead of predicting; what axum really does is recorded in the
+    /// summary (extra.outside_model_names_real_behaviour), not judged - protobuf names cannot
+    /// contain these characters.  The boundary itself (which names are outside) is what is tied.
+    fn outside_case(&mut self, kind: &str, regs: &[Reg], via: Via, req: Option<(&'static str, &str)>) {
+        assert!(!all_in_model(regs));
+        let r = build(regs, &self.w, false, via);
+        let names: Vec<&str> = regs.iter().map(|g| g.name()).collect();
+        let real = match (&r, req) {
+            (Err(_), _) => "registration panics".to_string(),
+            (Ok(_), None) => "registers".to_string(),
+            (Ok(routes), Some((meth, p))) => match p.parse::<http::Uri>() {
+                Err(_) => "registers; uri rejected".to_string(),
+                Ok(u) => format!("registers; {} -> {}", p, outcome_class(&request(routes, &self.w, meth, &u))),
+            },
+        };
+        *self.outside_behaviour.entry(format!("{:?}: {}", names, real)).or_default() += 1;
+        self.out.hist("outside.real_behaviour", if r.is_ok() { "registers" } else { "registration panics" });
+        let model = match req {
+            None => format!("obs_gbuild {}", coq_regs(regs)),
+            Some((meth, p)) => format!("obs_gserve {} {} {}", via.base(), coq_regs(regs), coq_request(meth, p)),
+        };
+        self.out.push(Case {
+            kind: kind.to_string(),
+            input: json!({"services": regs_json(regs), "via": via.s(), "request": req.map(|x| json!({"method": x.0, "path": x.1})), "real_behaviour (not judged)": real}),
+            model,
+            impl_obs: Tr::L(vec![Tr::n(96u8)]),
+            oracle: None,
+            nontrivial: false,
+        });
+    }
+    /// kind client: the generated CLIENT of ID_FIXTURE[k], method j, against Routes carrying `regs`
+    fn client_case(&mut self, kind: &str, regs: &[Reg], k: usize, j: usize, prepare: bool, via: Via) {
+        let f = &ID_FIXTURE[k];
+        let (_fn_name, ident, _shape) = f.methods[j];
+        let want_path = format!("/{}/{}", f.route, ident);
+        let routes = build(regs, &self.w, prepare, via);
+        let target = Reg::gen(k);
+        let d = target.desc().unwrap();
+        let model = format!(
+            "obs_gclient {} (mkTS {} {} {} {}) {} {}",
+            coq_regs(regs),
+            coq_bytes(d.rust_name.as_bytes()),
+            coq_bytes(d.package.as_bytes()),
+            coq_bytes(d.ident.as_bytes()),
+            coq_list(&d.methods, |m| format!("(mkTM {} {})", coq_bytes(m.0.as_bytes()), coq_bytes(m.1.as_bytes()))),
+            coq_bool(d.emit_package),
+            j
+        );
+        let (obs, orc) = match &routes {
+            Err(p) => (Tr::L(vec![Tr::n(99u8)]), Some(format!("registration panicked: {}", p))),
+            Ok(routes) => {
+                self.w.clear();
+                let sent = Arc::new(Mutex::new(vec![]));
+                let tap = PathTap { inner: routes.clone(), sent: sent.clone() };
+                let res = catch(std::panic::AssertUnwindSafe(|| client_call(tap, k, j)));
+                let sent = sent.lock().unwrap().clone();
+                let hits = self.w.hits();
+                let reached = self.w.reached.lock().unwrap().clone();
+                let registered = regs.iter().any(|g| g.kind == Kind::Gen(k));
+                let mut orc = None;
+                match &res {
+                    Err(p) => orc = Some(format!("generated client panicked: {}", p)),
+                    Ok(Err(())) => orc = Some("generated client call did not complete".to_string()),
+                    Ok(Ok(status)) => {
+                        if sent != vec![want_path.clone()] {
+                            orc = Some(format!("generated client {}::{} sent {:?}, the exact path is {:?}", f.rust_name, f.methods[j].0, sent, want_path));
+                        } else if registered {
+                            if hits != vec![(f.route.to_string(), ident.to_string())] {
+                                orc = Some(format!("generated client {}::{} ({}) reached handlers {:?}", f.rust_name, f.methods[j].0, want_path, hits));
+                            } else if let Err(s) = status {
+                                orc = Some(format!("generated client {}::{}: handler ran but the call failed: {:?} {}", f.rust_name, f.methods[j].0, s.code(), s.message()));
+                            }
+                        } else {
+                            // its server is not registered: UNIMPLEMENTED, no handler (unless a stub owns that exact path)
+                            let stub_owns = regs.iter().any(|g| g.name() == f.route && g.methods().iter().any(|m| m == ident));
+                            if !stub_owns {
+                                if !hits.is_empty() {
+                                    orc = Some(format!("server of {} is not registered but handlers {:?} ran", f.route, hits));
+                                } else if status.as_ref().err().map(|s| s.code()) != Some(tonic::Code::Unimplemented) {
+                                    orc = Some(format!("server of {} is not registered but the client got {:?}", f.route, status));
+                                }
+                            }
+                        }
+                    }
+                }
+                self.out.hist("client.outcome", if hits.len() == 1 { "handler" } else { "no handler" });
+                // the reply of a non-handler answer is consumed by the client; what is compared is
+                // the path and who was reached
+                let outcome = if hits.len() == 1 && reached.len() == 1 && reached[0] == hits[0].0 {
+                    Tr::L(vec![Tr::L(vec![Tr::n(0u8), Tr::s(&hits[0].0), Tr::s(&hits[0].1)]), Tr::L(vec![Tr::n(0u8)])])
+                } else {
+                    Tr::L(vec![Tr::n(98u8), Tr::n(hits.len() as u64), Tr::n(reached.len() as u64)])
+                };
+                (Tr::L(vec![Tr::s(sent.first().map(|s| s.as_str()).unwrap_or("")), outcome]), orc)
+            }
+        };
+        self.out.hist("client.method", format!("{}::{}", f.route, f.methods[j].0));
+        self.out.hist("client.via", via.s());
+        self.out.hist("client.services", regs.len());
+        self.out.push(Case {
+            kind: kind.to_string(),
+            input: json!({"services": regs_json(regs), "client_of": f.route, "id_fixture": k, "method_index": j, "client_fn": f.methods[j].0, "prepare": prepare, "via": via.s()}),
+            model,
+            impl_obs: obs,
+            oracle: orc,
+            nontrivial: true,
         });
     }
 }
@@ -959,6 +1521,9 @@ fn sample_orders(r: &mut Rng, n: usize, k: usize) -> Vec<Vec<usize>> {
     }
     out
 }
+fn static_meth(m: &str) -> &'static str {
+    std::iter::once("POST").chain(METHS.iter().cloned()).find(|x| *x == m).unwrap_or("POST")
+}
 
 fn run_replay(ctx: &mut Ctx, file: &str) {
     let v: Value = serde_json::from_str(&std::fs::read_to_string(file).expect("replay file")).expect("json");
@@ -966,46 +1531,51 @@ fn run_replay(ctx: &mut Ctx, file: &str) {
     let input = &v["input"];
     let regs: Vec<Reg> = input["services"].as_array().unwrap().iter().map(Reg::from_json).collect();
     let uri = input["uri"].as_str().unwrap_or("/");
+    let meth = static_meth(input["method"].as_str().unwrap_or("POST"));
     let mutation = input["mutation"].as_str().unwrap_or("id");
     let prepare = input["prepare"].as_bool().unwrap_or(false);
-    if kind.ends_with("build") {
-        ctx.build_case(&kind, &regs, Via::parse(input["via"].as_str().unwrap_or("")));
+    let via = Via::parse(input["via"].as_str().unwrap_or(""));
+    if kind.ends_with("outside") {
+        let rq = input["request"].as_object().map(|o| (static_meth(o["method"].as_str().unwrap_or("POST")), o["path"].as_str().unwrap_or("/").to_string()));
+        ctx.outside_case(&kind, &regs, via, rq.as_ref().map(|x| (x.0, x.1.as_str())));
+    } else if kind.ends_with("client") {
+        ctx.client_case(&kind, &regs, input["id_fixture"].as_u64().unwrap_or(0) as usize, input["method_index"].as_u64().unwrap_or(0) as usize, prepare, via);
+    } else if kind.ends_with("build") {
+        ctx.build_case(&kind, &regs, via);
     } else if kind.ends_with("transport") {
-        ctx.transport(&kind, &regs, &[(uri.to_string(), mutation.to_string())], TPlan::from_json(&input["plan"]));
+        ctx.transport(&kind, &regs, &[(uri.to_string(), mutation.to_string(), meth)], TPlan::from_json(&input["plan"]));
     } else if kind.ends_with("orders.sampled") {
         let idxs: Vec<Vec<usize>> = input["order_indices"].as_array().unwrap().iter().map(|p| p.as_array().unwrap().iter().map(|i| i.as_u64().unwrap() as usize).collect()).collect();
-        let via = Via::parse(input["via"].as_str().unwrap_or(""));
         let all = orders_at(&regs, &idxs, &ctx.w, prepare, via);
-        ctx.orders(&kind, &regs, &all, Some(&idxs), uri, mutation, prepare, via);
+        ctx.orders(&kind, &regs, &all, Some(&idxs), meth, uri, mutation, prepare, via);
     } else if kind.ends_with("orders") {
-        let via = Via::parse(input["via"].as_str().unwrap_or(""));
         let all = all_orders(&regs, &ctx.w, prepare, via);
-        ctx.orders(&kind, &regs, &all, None, uri, mutation, prepare, via);
+        ctx.orders(&kind, &regs, &all, None, meth, uri, mutation, prepare, via);
     } else {
-        let via = Via::parse(input["via"].as_str().unwrap_or(""));
         let routes = build(&regs, &ctx.w, prepare, via);
-        ctx.serve(&kind, &regs, &routes, uri, mutation, prepare, via);
+        ctx.serve(&kind, &regs, &routes, meth, uri, mutation, prepare, via);
     }
 }
 
 fn main() {
     let a = args();
-    let mut ctx = Ctx { out: Out::new(&a.out), w: World::default(), unparsable: 0 };
+    let mut ctx = Ctx { out: Out::new(&a.out), w: World::default(), unparsable: 0, outside_behaviour: Default::default() };
     let mut r = Rng::new(a.seed);
-    const RULE: &str = "serve: 0..8 services (stubs transcribing the generated `call` + 7 real generated servers, names drawn from prefix/case families, with and without package; NamedService::NAME through the harness wrapper, InterceptedService::new, XxxServer::with_interceptor or Layered) registered via Routes::default().add_service / Routes::new / RoutesBuilder::add_service(&mut) / RoutesBuilder::from [optionally prepare()], one request whose URI is a registered /S/M under 0-2 of 31 mutations (drop/insert/case/extra+empty segments/%2F/percent-escapes/query/fragment/absolute-form/prefix truncation+extension/...) or random; orders: 1..4 services, the same request against ALL n! registration orders (with and without prepare()); orders.sampled: 5..8 services, 12 sampled orders; transport: Server::builder().add_service / add_optional_service(Some|None) chains served with serve_with_incoming over tokio duplex, requests sent by a raw h2 client; build: registration with duplicate and rejected names. The whole response head of every non-handler answer is observed (HTTP status, all headers, body, trailers). Non-trivial = at least one (orders, transport: two) services and a path other than '/'. Distinct = distinct (kind, model expression).";
+    const RULE: &str = "serve: 0..8 services (stubs transcribing the generated `call`, 7 real generated servers with name() == identifier(), 6 real generated servers with name() != identifier() / emit_package(false) made by CodeGenBuilder from our own tonic_build::Service impls; names drawn from prefix/case families of a 48-name pool, with and without package; NamedService::NAME through the harness wrapper, InterceptedService::new, XxxServer::with_interceptor, Layered, GrpcWebService or Layered over GrpcWebLayer) registered via Routes::default().add_service / Routes::new / RoutesBuilder::add_service(&mut) / RoutesBuilder::from [optionally prepare()], one request (method POST 70 %, else GET/PUT/DELETE/HEAD/OPTIONS/PATCH/TRACE/FOO/post/CONNECT) whose URI is a registered /S/M under 0-2 of 41 mutations (drop/insert/case/extra+empty segments/%2F/percent-escapes/query/fragment/absolute-form/prefix truncation+extension/Rust spelling of service or method/package added or dropped/...) or random; every generated server is described to the model by its tonic-build descriptor (Service::name(), package, identifier(), emit_package, methods); from_axum: the same on Routes::from(axum::Router::new()) / RoutesBuilder::from(axum::Router) / axum_router_mut; orders: 1..4 services, the same request against ALL n! registration orders (with and without prepare()); orders.sampled: 5..8 services, 12 sampled orders; transport: Server::builder().add_service / add_optional_service(Some|None) / add_routes chains served with serve_with_incoming[_shutdown] over tokio duplex or serve / serve_with_shutdown on 127.0.0.1, requests sent by a raw h2 client; client: the generated clients of the identifier fixture against Routes carrying their server among others (path put on the wire + handler reached); build: registration with duplicate and rejected names; *.outside: names with '/', '{', '}' (the model answers obs_outside). The whole response head of every non-handler answer is observed (HTTP status, all headers, body, trailers). Non-trivial = at least one (orders, transport: two) services and a path other than '/'. Distinct = distinct (kind, model expression).";
 
     if let Some(f) = &a.replay {
         run_replay(&mut ctx, f);
         ctx.out.finish(IMPORTS, RULE, json!({"replay": f}));
         return;
     }
+    let post = |ps: &[&str]| -> Vec<(String, String, &'static str)> { ps.iter().map(|p| (p.to_string(), "corpus".to_string(), "POST")).collect() };
 
     // ---- corpus: all 7 real generated servers, the hand-picked near misses ----
     let real: Vec<Reg> = (0..7).map(Reg::real).collect();
     for (prepare, via) in [(false, Via::Direct), (true, Via::Builder)] {
         let routes = build(&real, &ctx.w, prepare, via);
         for p in CORPUS_PATHS {
-            ctx.serve("corpus.serve", &real, &routes, p, "corpus", prepare, via);
+            ctx.serve("corpus.serve", &real, &routes, "POST", p, "corpus", prepare, via);
         }
     }
     // the same with NAME propagated by tonic (interceptor / with_interceptor / Layered)
@@ -1013,62 +1583,133 @@ fn main() {
         let regs: Vec<Reg> = (0..7).map(|k| Reg { kind: Kind::Real(k), how, opt: None }).collect();
         let routes = build(&regs, &ctx.w, false, Via::Direct);
         for p in CORPUS_PATHS {
-            ctx.serve("corpus.serve", &regs, &routes, p, "corpus", false, Via::Direct);
+            ctx.serve("corpus.serve", &regs, &routes, "POST", p, "corpus", false, Via::Direct);
         }
     }
     // empty Routes: every path is answered by the fallback (C03: a well-formed UNIMPLEMENTED)
     for via in [Via::Direct, Via::Builder] {
         let routes = build(&[], &ctx.w, false, via);
         for p in ["/", "/pkg.Svc/Get", "/grpc.health.v1.Health/Check", "*", "/a", "//", "/a/b/c?x"] {
-            ctx.serve("corpus.serve", &[], &routes, p, "corpus", false, via);
+            for meth in ["POST", "GET", "HEAD", "CONNECT", "FOO"] {
+                ctx.serve("corpus.serve", &[], &routes, meth, p, "corpus", false, via);
+            }
+        }
+    }
+    // ---- corpus: the identifier fixture (name() != identifier(), emit_package on / off) ----
+    // witness of the seeded change r4-C10 (NAME derived from Service::name()): the exact paths
+    // reach their handlers, every Rust spelling is UNIMPLEMENTED, through every registration path
+    let idfix: Vec<Reg> = (0..ID_FIXTURE.len()).map(Reg::gen).collect();
+    for (prepare, via) in [(false, Via::Direct), (true, Via::Builder)] {
+        let routes = build(&idfix, &ctx.w, prepare, via);
+        for p in ID_CORPUS_PATHS {
+            ctx.serve("corpus.serve", &idfix, &routes, "POST", p, "corpus", prepare, via);
+        }
+    }
+    for how in [How::Intercepted, How::WithInterceptor, How::Layered, How::GrpcWeb, How::GrpcWebLayered] {
+        let regs: Vec<Reg> = (0..ID_FIXTURE.len()).map(|k| Reg { kind: Kind::Gen(k), how, opt: None }).collect();
+        let routes = build(&regs, &ctx.w, false, Via::Direct);
+        for p in ID_CORPUS_PATHS {
+            ctx.serve("corpus.serve", &regs, &routes, "POST", p, "corpus", false, Via::Direct);
+        }
+    }
+    // each identifier-fixture server ALONE (no other route can take the blame), and without the
+    // server whose identifier is the Rust spelling of another one
+    for k in [0usize, 2, 3] {
+        let regs = vec![Reg::gen(k)];
+        let routes = build(&regs, &ctx.w, false, Via::Direct);
+        for p in ID_CORPUS_PATHS {
+            ctx.serve("corpus.serve", &regs, &routes, "POST", p, "corpus", false, Via::Direct);
+        }
+    }
+    let no_canon: Vec<Reg> = [0usize, 1, 2, 3].iter().map(|k| Reg::gen(*k)).collect();
+    let all = all_orders(&no_canon, &ctx.w, false, Via::Direct);
+    for p in ID_CORPUS_PATHS {
+        ctx.orders("corpus.orders", &no_canon, &all, None, "POST", p, "corpus", false, Via::Direct);
+    }
+    // every generated client of the fixture, its server registered alone / among all others in two orders
+    for k in 0..ID_FIXTURE.len() {
+        for j in 0..ID_FIXTURE[k].methods.len() {
+            ctx.client_case("corpus.client", &[Reg::gen(k)], k, j, false, Via::Direct);
+            ctx.client_case("corpus.client", &idfix, k, j, false, Via::Builder);
+            let mut rev: Vec<Reg> = idfix.iter().rev().cloned().collect();
+            rev.extend((0..4).map(Reg::real));
+            ctx.client_case("corpus.client", &rev, k, j, true, Via::New);
+        }
+    }
+    // a stub registered under the NAME a generated server must have: registration must refuse the pair
+    for regs in [vec![Reg::gen(0), Reg::stub(46, &["Ping"])], vec![Reg::stub(47, &[]), Reg::gen(2)], vec![Reg::gen(0), Reg::gen(4), Reg::gen(3)], vec![Reg::gen(2), Reg::gen(5)], idfix.clone()] {
+        for via in [Via::Direct, Via::New, Via::Builder] {
+            ctx.build_case("corpus.build", &regs, via);
         }
     }
     // through tonic::transport::Server over a connection
-    let paths: Vec<(String, String)> = CORPUS_PATHS.iter().map(|p| (p.to_string(), "corpus".to_string())).collect();
+    let paths = post(CORPUS_PATHS);
+    let id_paths = post(ID_CORPUS_PATHS);
     ctx.transport("corpus.transport", &real, &paths, TPlan::PLAIN);
     // all seven handed over as ready-made Routes: Server::builder().add_routes(routes)
-    ctx.transport("corpus.transport", &real, &paths, TPlan { routes_first: Some(7), via: Via::Builder, prepare: false, with_shutdown: true });
-    ctx.transport("corpus.transport", &real, &paths, TPlan { routes_first: Some(3), via: Via::New, prepare: true, with_shutdown: false });
+    ctx.transport("corpus.transport", &real, &paths, TPlan { routes_first: Some(7), via: Via::Builder, prepare: false, serve: ServeBy::IncomingShutdown, layer: false });
+    ctx.transport("corpus.transport", &real, &paths, TPlan { routes_first: Some(3), via: Via::New, prepare: true, serve: ServeBy::Incoming, layer: false });
+    // Router::serve / serve_with_shutdown on a 127.0.0.1 listener
+    ctx.transport("corpus.transport", &real, &paths, TPlan { routes_first: None, via: Via::Direct, prepare: false, serve: ServeBy::Tcp, layer: false });
+    ctx.transport("corpus.transport", &real, &paths[..24], TPlan { routes_first: Some(4), via: Via::Direct, prepare: false, serve: ServeBy::TcpShutdown, layer: false });
+    // the identifier fixture over the wire, by add_service and by add_routes
+    ctx.transport("corpus.transport", &idfix, &id_paths, TPlan::PLAIN);
+    ctx.transport("corpus.transport", &idfix, &id_paths, TPlan { routes_first: Some(6), via: Via::Builder, prepare: false, serve: ServeBy::IncomingShutdown, layer: false });
+    ctx.transport("corpus.transport", &idfix, &id_paths, TPlan { routes_first: Some(2), via: Via::Direct, prepare: true, serve: ServeBy::Tcp, layer: false });
+    ctx.transport("corpus.transport", &idfix, &id_paths, TPlan { routes_first: None, via: Via::Direct, prepare: false, serve: ServeBy::TcpShutdown, layer: false });
+    // .. and handed over on the caller's axum router
+    ctx.transport("corpus.transport", &idfix, &id_paths, TPlan { routes_first: Some(6), via: Via::FromAxum, prepare: false, serve: ServeBy::Incoming, layer: false });
     let mixed: Vec<Reg> = vec![
         Reg { kind: Kind::Real(0), how: How::WithInterceptor, opt: None },
         Reg { kind: Kind::Real(1), how: How::GrpcWeb, opt: Some(true) },
         Reg { kind: Kind::Real(2), how: How::Layered, opt: Some(false) },
         Reg { kind: Kind::Real(4), how: How::Intercepted, opt: None },
         Reg { kind: Kind::Stub { idx: 3, methods: vec!["Get".into()] }, how: How::GrpcWebLayered, opt: Some(true) },
+        Reg { kind: Kind::Gen(0), how: How::WithInterceptor, opt: Some(true) },
+        Reg { kind: Kind::Gen(4), how: How::GrpcWeb, opt: Some(false) },
     ];
-    ctx.transport("corpus.transport", &mixed, &paths, TPlan::PLAIN);
-    ctx.transport("corpus.transport", &mixed, &paths, TPlan { routes_first: Some(2), via: Via::Direct, prepare: false, with_shutdown: true });
+    let mut mixed_paths = paths.clone();
+    mixed_paths.extend(id_paths.iter().cloned());
+    ctx.transport("corpus.transport", &mixed, &mixed_paths, TPlan::PLAIN);
+    // behind Server::builder().layer(..): by add_service, by add_routes, over TCP
+    ctx.transport("corpus.transport", &mixed, &mixed_paths, TPlan { layer: true, ..TPlan::PLAIN });
+    ctx.transport("corpus.transport", &idfix, &id_paths[..30], TPlan { routes_first: Some(3), via: Via::Builder, prepare: false, serve: ServeBy::Tcp, layer: true });
+    ctx.transport("corpus.transport", &real, &paths[..30], TPlan { routes_first: Some(7), via: Via::Direct, prepare: true, serve: ServeBy::IncomingShutdown, layer: true });
+    ctx.transport("corpus.transport", &mixed, &mixed_paths, TPlan { routes_first: Some(2), via: Via::Direct, prepare: false, serve: ServeBy::IncomingShutdown, layer: false });
     ctx.transport("corpus.transport", &[], &paths[..12], TPlan::PLAIN);
     ctx.transport("corpus.transport", &[Reg { kind: Kind::Real(0), how: How::Plain, opt: Some(false) }], &paths[..12], TPlan::PLAIN);
+    // other methods over the wire
+    let meth_paths: Vec<(String, String, &'static str)> = ["/pkg.Svc/Get", "/pkg.Svc/Nope", "/pkg.Other/Get", "/", "/pkg.HTTPEcho/Ping", "/pkg.HttpEcho/Ping"]
+        .iter()
+        .flat_map(|p| ["GET", "PUT", "DELETE", "HEAD", "OPTIONS", "PATCH", "TRACE", "FOO", "post"].into_iter().map(move |m| (p.to_string(), "corpus".to_string(), m)))
+        .collect();
+    ctx.transport("corpus.transport", &[Reg::real(0), Reg::gen(0)], &meth_paths, TPlan::PLAIN);
     // prefix-sharing names (pkg.Svc / pkg.SvcX / Svc / pkg.Svc.Inner, real generated servers) in
     // EVERY order through every transport registration path: a registration that probes by prefix
     // un-routes the shorter name when the longer one is registered first
-    let prefix_paths: Vec<(String, String)> = [
+    let prefix_paths = post(&[
         "/pkg.Svc/Get", "/pkg.SvcX/Get", "/pkg.SvcX/GetX", "/Svc/Get", "/Svc/get", "/pkg.Svc.Inner/Get", "/pkg.Svc/Chat", "/pkg.Svc/GetX",
         "/pkg.Sv/Get", "/pkg.SvcXY/Get", "/pkg.Svc./Get", "/pkg.Svc.Inne/Get", "/pkg/Get", "/pkg.Svc/",
-    ]
-    .iter()
-    .map(|p| (p.to_string(), "corpus".to_string()))
-    .collect();
+    ]);
     let four: Vec<Reg> = (0..4).map(Reg::real).collect();
     for (i, order) in perms(&four).into_iter().enumerate() {
         let plan = match i % 4 {
             0 => TPlan::PLAIN,
-            1 => TPlan { routes_first: Some(4), via: Via::Direct, prepare: false, with_shutdown: false },
-            2 => TPlan { routes_first: Some(2), via: Via::Builder, prepare: true, with_shutdown: true },
-            _ => TPlan { routes_first: Some(1), via: Via::New, prepare: false, with_shutdown: true },
+            1 => TPlan { routes_first: Some(4), via: Via::Direct, prepare: false, serve: ServeBy::Incoming, layer: false },
+            2 => TPlan { routes_first: Some(2), via: Via::Builder, prepare: true, serve: ServeBy::IncomingShutdown, layer: false },
+            _ => TPlan { routes_first: Some(1), via: Via::New, prepare: false, serve: ServeBy::IncomingShutdown, layer: false },
         };
         ctx.transport("corpus.transport", &order, &prefix_paths, plan);
         // and the complementary plan, so that every order meets add_routes AND add_service
-        let plan2 = if plan.routes_first.is_none() { TPlan { routes_first: Some(3), via: Via::BuilderFrom, prepare: false, with_shutdown: false } } else { TPlan::PLAIN };
+        let plan2 = if plan.routes_first.is_none() { TPlan { routes_first: Some(3), via: Via::BuilderFrom, prepare: false, serve: ServeBy::Incoming, layer: false } } else { TPlan::PLAIN };
         ctx.transport("corpus.transport", &order, &prefix_paths, plan2);
     }
     // .. and through each way of building Routes directly
     for via in [Via::Direct, Via::New, Via::Builder, Via::BuilderFrom] {
         for prepare in [false, true] {
             let all = all_orders(&four, &ctx.w, prepare, via);
-            for (p, _) in &prefix_paths {
-                ctx.orders("corpus.orders", &four, &all, None, p, "corpus", prepare, via);
+            for (p, _, _) in &prefix_paths {
+                ctx.orders("corpus.orders", &four, &all, None, "POST", p, "corpus", prepare, via);
             }
         }
     }
@@ -1077,7 +1718,7 @@ fn main() {
     for prepare in [false, true] {
         let all = all_orders(&stubs, &ctx.w, prepare, Via::Direct);
         for p in CORPUS_PATHS {
-            ctx.orders("corpus.orders", &stubs, &all, None, p, "corpus", prepare, Via::Direct);
+            ctx.orders("corpus.orders", &stubs, &all, None, "POST", p, "corpus", prepare, Via::Direct);
         }
     }
     let odd: Vec<Reg> = vec![
@@ -1088,7 +1729,7 @@ fn main() {
     ];
     let all = all_orders(&odd, &ctx.w, false, Via::Builder);
     for p in ["//M", "/x%2Fy/M", "/x%2fy/M", "/x/y/M", "/x%2Fy/x%2Fy", "/x/Get/x", "/x/Get", "/x/", "/x", "/a*b/M", "/aXb/M", "/a%2Ab/M", "///M", "//", "/"] {
-        ctx.orders("corpus.orders", &odd, &all, None, p, "corpus", false, Via::Builder);
+        ctx.orders("corpus.orders", &odd, &all, None, "POST", p, "corpus", false, Via::Builder);
     }
     // registration panics
     for regs in [
@@ -1104,9 +1745,39 @@ fn main() {
             ctx.build_case("corpus.build", &regs, via);
         }
     }
+    // ---- corpus: Routes built on the CALLER's axum router (observation N-C10-3, see checks) ----
+    for via in [Via::FromAxum, Via::BuilderFromAxum, Via::AxumMut] {
+        for (regs, ps) in [(&real, CORPUS_PATHS), (&idfix, ID_CORPUS_PATHS)] {
+            for prepare in [false, true] {
+                let routes = build(regs, &ctx.w, prepare, via);
+                for p in ps.iter().take(if prepare { 12 } else if via == Via::FromAxum { ps.len() } else { 24 }) {
+                    ctx.serve("corpus.from_axum", regs, &routes, "POST", p, "corpus", prepare, via);
+                }
+            }
+        }
+        let routes = build(&[], &ctx.w, false, via);
+        for p in ["/", "/pkg.Svc/Get", "*", "/a"] {
+            for meth in ["POST", "GET", "HEAD", "CONNECT"] {
+                ctx.serve("corpus.from_axum", &[], &routes, meth, p, "corpus", false, via);
+            }
+        }
+    }
+    // ---- corpus: names outside the modelled name space ----
+    for idx in 48..56usize {
+        ctx.outside_case("corpus.build.outside", &[Reg::stub(idx, &["M"])], Via::Direct, None);
+        ctx.outside_case("corpus.build.outside", &[Reg::stub(0, &["Get"]), Reg::stub(idx, &["M"])], Via::Builder, None);
+        let p = format!("/{}/M", STUB_NAMES[idx]);
+        ctx.outside_case("corpus.serve.outside", &[Reg::stub(idx, &["M"]), Reg::stub(0, &["Get"])], Via::Direct, Some(("POST", &p)));
+    }
+    ctx.outside_case("corpus.build.outside", &[Reg::stub(51, &[]), Reg::stub(52, &[])], Via::Direct, None); // {x} and {y}
+    ctx.outside_case("corpus.build.outside", &[Reg::stub(48, &[]), Reg::stub(11, &[])], Via::Direct, None); // a/b and a
+    // ---- corpus: request targets that are not UTF-8 ----
+    for raw in [&b"/pkg.Svc/\xff"[..], b"/pkg.Svc/Get\x80", b"/\xc3\x28/Get", b"/pkg.Svc/\xe9", b"/pkg.Svc/\xc3\xa9", b"/pkg.\xf0\x9f\x98\x80/Get", b"/pkg.Svc/Get?\xff", b"/pkg.Svc/\xed\xa0\x80"] {
+        ctx.raw_target(raw);
+    }
 
     // ---- generated ----
-    let (n_orders, paths_per, n_serve_sc, n_build, n_sampled, n_transport) = if a.thorough { (500, 12, 1500, 600, 200, 400) } else { (60, 10, 140, 80, 25, 40) };
+    let (n_orders, paths_per, n_serve_sc, n_build, n_sampled, n_transport, n_axum, n_client) = if a.thorough { (500, 12, 1500, 600, 200, 400, 300, 600) } else { (60, 10, 140, 80, 25, 40, 30, 60) };
     for _ in 0..n_orders {
         let regs = gen_regs(&mut r, 4, 1);
         let prepare = r.chance(1, 2);
@@ -1114,7 +1785,8 @@ fn main() {
         let all = all_orders(&regs, &ctx.w, prepare, via);
         for _ in 0..paths_per {
             let (u, d) = gen_uri(&mut r, &regs);
-            ctx.orders("orders", &regs, &all, None, &u, &d, prepare, via);
+            let meth = gen_meth(&mut r, false);
+            ctx.orders("orders", &regs, &all, None, meth, &u, &d, prepare, via);
         }
     }
     for _ in 0..n_sampled {
@@ -1125,7 +1797,8 @@ fn main() {
         let all = orders_at(&regs, &idxs, &ctx.w, prepare, via);
         for _ in 0..paths_per {
             let (u, d) = gen_uri(&mut r, &regs);
-            ctx.orders("orders.sampled", &regs, &all, Some(&idxs), &u, &d, prepare, via);
+            let meth = gen_meth(&mut r, false);
+            ctx.orders("orders.sampled", &regs, &all, Some(&idxs), meth, &u, &d, prepare, via);
         }
     }
     for _ in 0..n_serve_sc {
@@ -1135,8 +1808,31 @@ fn main() {
         let routes = build(&regs, &ctx.w, prepare, via);
         for _ in 0..paths_per {
             let (u, d) = gen_uri(&mut r, &regs);
-            ctx.serve("serve", &regs, &routes, &u, &d, prepare, via);
+            let meth = gen_meth(&mut r, false);
+            ctx.serve("serve", &regs, &routes, meth, &u, &d, prepare, via);
         }
+    }
+    for _ in 0..n_axum {
+        let regs = gen_regs(&mut r, 6, 0);
+        let prepare = r.chance(1, 2);
+        let via = *r.pick(&[Via::FromAxum, Via::BuilderFromAxum, Via::AxumMut]);
+        let routes = build(&regs, &ctx.w, prepare, via);
+        for _ in 0..paths_per {
+            let (u, d) = gen_uri(&mut r, &regs);
+            let meth = gen_meth(&mut r, false);
+            ctx.serve("from_axum", &regs, &routes, meth, &u, &d, prepare, via);
+        }
+    }
+    for _ in 0..n_client {
+        let k = r.below(ID_FIXTURE.len() as u64) as usize;
+        let j = r.below(ID_FIXTURE[k].methods.len() as u64) as usize;
+        let mut regs = gen_regs(&mut r, 6, 0);
+        regs.retain(|g| g.name() != ID_FIXTURE[k].route);
+        let at = r.below(regs.len() as u64 + 1) as usize;
+        let real = true;
+        regs.insert(at, Reg { kind: Kind::Gen(k), how: gen_how(&mut r, real), opt: None });
+        let via = if r.chance(1, 5) { *r.pick(&[Via::FromAxum, Via::BuilderFromAxum]) } else { Via::pick(&mut r) };
+        ctx.client_case("client", &regs, k, j, r.chance(1, 2), via);
     }
     for _ in 0..n_transport {
         let mut regs = gen_regs(&mut r, 6, 0);
@@ -1155,7 +1851,8 @@ fn main() {
         for _ in 0..paths_per {
             // aim at everything that was passed to the builder, registered or not
             let aim_all = r.chance(1, 4);
-            uris.push(gen_uri(&mut r, if aim_all { &regs } else { &model_regs }));
+            let (u, d) = gen_uri(&mut r, if aim_all { &regs } else { &model_regs });
+            uris.push((u, d, gen_meth(&mut r, true)));
         }
         let plan = TPlan::gen(&mut r, regs.len());
         if regs.len() <= 3 && r.chance(1, 2) {
@@ -1171,37 +1868,44 @@ fn main() {
         let n = r.range(0, 5);
         let mut regs = vec![];
         for _ in 0..n {
-            let kind = if r.chance(1, 4) {
-                Kind::Real(r.below(7) as usize)
-            } else if r.chance(1, 6) {
-                Kind::Stub { idx: r.range(28, 29) as usize, methods: vec![] }
-            } else {
-                Kind::Stub { idx: *r.pick(&[0usize, 1, 2, 3, 4, 15, 19, 20, 21]), methods: gen_methods(&mut r) }
+            let kind = match r.below(12) {
+                0 | 1 => Kind::Real(r.below(7) as usize),
+                2 | 3 => Kind::Gen(r.below(ID_FIXTURE.len() as u64) as usize),
+                4 => Kind::Stub { idx: r.range(28, 29) as usize, methods: vec![] },
+                5 => Kind::Stub { idx: r.range(46, 47) as usize, methods: gen_methods(&mut r) },
+                _ => Kind::Stub { idx: *r.pick(&[0usize, 1, 2, 3, 4, 15, 19, 20, 21, 30, 33, 37]), methods: gen_methods(&mut r) },
             };
-            let real = matches!(kind, Kind::Real(_));
+            let real = !matches!(kind, Kind::Stub { .. });
             regs.push(Reg { kind, how: gen_how(&mut r, real), opt: None });
         }
         ctx.build_case("build", &regs, Via::pick(&mut r));
     }
-
-    // Outside the model, recorded only: Routes made from a caller-supplied axum::Router
-    // (From<axum::Router>) carry THAT router's fallback, not tonic's `unimplemented`
-    let probe = {
-        let t = register(Target::Routes(Routes::from(axum::Router::new())), &Reg::real(0), &ctx.w);
-        let routes = match t {
-            Target::Routes(r) => r,
-            _ => unreachable!(),
-        };
-        let mut v = vec![];
-        for p in ["/nope/x", "/pkg.Svc/Nope", "/pkg.Svc/Get"] {
-            let o = request(&routes, &ctx.w, &p.parse().unwrap());
-            v.push(match o {
-                Ok(o) => json!({"path": p, "http": o.http, "grpc-status": o.headers.get("grpc-status").map(|x| String::from_utf8_lossy(x.as_bytes()).to_string()), "handlers": o.hits.len()}),
-                Err(e) => json!({"path": p, "error": e}),
-            });
+    // names outside the model among modelled ones
+    for _ in 0..(n_build / 4) {
+        let mut regs = gen_regs(&mut r, 3, 0);
+        let at = r.below(regs.len() as u64 + 1) as usize;
+        regs.insert(at, Reg::stub(r.range(48, 55) as usize, &["M"]));
+        if r.chance(1, 2) {
+            ctx.outside_case("build.outside", &regs, Via::pick(&mut r), None);
+        } else {
+            let (u, _) = gen_uri(&mut r, &regs);
+            if let Ok(uri) = u.parse::<http::Uri>() {
+                let p = uri.path().to_string();
+                ctx.outside_case("serve.outside", &regs, Via::pick(&mut r), Some(("POST", &p)));
+            }
         }
-        v
-    };
+    }
+    // random request targets with high bytes
+    for _ in 0..(n_build / 2) {
+        let mut raw = b"/pkg.Svc/Get".to_vec();
+        for _ in 0..r.range(1, 3) {
+            let at = r.range(1, raw.len() as u64) as usize;
+            raw.insert(at, r.range(0x80, 0xff) as u8);
+        }
+        ctx.raw_target(&raw);
+    }
+
     let unparsable = ctx.unparsable;
-    ctx.out.finish(IMPORTS, RULE, json!({"uris_rejected_by_http_crate_and_not_sent": unparsable, "routes_from_user_axum_router_probe (not judged)": probe}));
+    let outside: Vec<Value> = ctx.outside_behaviour.iter().map(|(k, v)| json!({"registration": k, "times": v})).collect();
+    ctx.out.finish(IMPORTS, RULE, json!({"uris_rejected_by_http_crate_and_not_sent": unparsable, "outside_model_names_real_behaviour (not judged)": outside}));
 }
